@@ -19,17 +19,17 @@ import (
 )
 
 type world struct {
-	prog        *ssa.Program
-	pkgs        []*packages.Package
-	ssaPkgs     map[string]*ssa.Package
-	typesPkgs   map[string]*types.Package
-	mu          sync.Mutex
-	opaqueCache sync.Map // types.Type -> bool
-	rtCache     sync.Map // reflect.Type -> types.Type
-	loadSecs    float64
-	buildSecs   float64
-	overlayed   []string
-	initOrder   []*ssa.Package
+	prog           *ssa.Program
+	pkgs           []*packages.Package
+	ssaPkgs        map[string]*ssa.Package
+	typesPkgs      map[string]*types.Package
+	mu             sync.Mutex
+	opaqueCache    sync.Map // types.Type -> bool
+	rtCache        sync.Map // reflect.Type -> types.Type
+	loadSecs       float64
+	buildSecs      float64
+	overlayed      []string
+	initOrder      []*ssa.Package
 	intrinsicNames map[string]bool
 }
 
@@ -58,6 +58,7 @@ var repoDir, moduleDir = func() (string, string) {
 	os.WriteFile(filepath.Join(dir, "go.sum"), sum, 0o644)
 	return alt, dir
 }()
+
 const repoMod = "github.com/hashicorp/hcl-lang"
 
 var harnessDir = func() string {
